@@ -335,13 +335,16 @@ CONDS = [
     "a0", "not a0", "a0 and a1", "a0 or a1", "not (a0 and a1)", "(a0 or a1) and a2", "not a0 and not a1", "x > y", "x <= y and a0",
     "any([a0, a1])", "all((a0, a1))", "a0 or not a2",
     "x >= y", "not x >= y", "not x > y", "x == y", "not x == y", "x != y", "not (x < y)", "not x <= y or a0", "x < y < z",
+    "a0 and not a1 and a2", "a0 or (a1 and a2)", "a0 or a1 or a2", "not (a0 or a1) and a2", "(a0 and a1) or (not a0 and a2)", "a0 and (a1 or not a2)",
 ]
 EXPRS = [
     "x", "y + 1.0", "2.0", "x + y", "min(x, y)", "max(x, y)", "min([x, y])", "max((x, z))", "sum([x, y])", "sum((x, y, z))",
     "x if a2 else y", "x if a1 else (y if a2 else z)", "max(x, 0.0) + min(y, z)",
 ]
 EXPRS_SMALL = ["x", "y + 1.0", "min(x, y)", "x if a2 else y", "max([y, z])"]
-CONDS_SMALL = ["a0", "not a1", "a0 and a1", "x > y", "a1 or a2", "not x >= y", "x != z"]
+CONDS_SMALL = ["a0", "not a1", "a0 and a1", "x > y", "a1 or a2", "not x >= y", "x != z", "a0 and not a1 and a2", "a0 or (a1 and a2)"]
+CONDS_TINY = ["a0", "not a1", "x > y", "a1 or a2"]
+EXPRS_TINY = ["x", "y + 1.0", "min(x, z)", "x if a2 else z"]
 HEAD = "def f(x, y, z, a0, a1, a2):\n"
 
 
@@ -373,6 +376,15 @@ def programs():
                 yield "nested-if", (HEAD + f"    if {c1}:\n        if {c2}:\n            out = {e1}\n        else:\n            out = {e2}\n"
                                     f"    else:\n        out = {e3}\n    return out\n")
                 yield "elif-noelse", HEAD + f"    out = {e3}\n    if {c1}:\n        out = {e1}\n    elif {c2}:\n        out = {e2}\n    return out\n"
+    # four-way chains and chains that mix return / assignment
+    for c1, c2, c3 in itertools.product(CONDS_TINY, repeat=3):
+        for e1, e2, e3, e4 in itertools.product(EXPRS_TINY, repeat=4):
+            yield "elif-elif-return", (HEAD + f"    if {c1}:\n        return {e1}\n    elif {c2}:\n        return {e2}\n    elif {c3}:\n        return {e3}\n"
+                                       f"    else:\n        return {e4}\n")
+        for e1, e2, e3 in itertools.product(EXPRS_TINY, repeat=3):
+            yield "elif-elif-assign-noelse", (HEAD + f"    out = {e3}\n    if {c1}:\n        out = {e1}\n    elif {c2}:\n        out = {e2}\n    elif {c3}:\n        out = x\n    return out\n")
+            yield "nested-ifexp-in-branch", (HEAD + f"    if {c1}:\n        out = {e1} if {c2} else ({e2} if {c3} else {e3})\n    else:\n        out = {e3}\n    return out\n")
+            yield "minmax-of-ifexp", HEAD + f"    out = max({e1} if {c1} else {e2}, min({e3}, {e1} if {c2} else 0.0))\n    if {c3}:\n        out = out + 1.0\n    return out\n"
     for c in CONDS:
         for e1 in EXPRS_SMALL:
             yield "two-statements-in-branch", HEAD + f"    if {c}:\n        out = {e1}\n        out = out + 1.0\n    else:\n        out = 0.0\n    return out\n"
